@@ -31,6 +31,7 @@ import (
 	"github.com/lindb/lindb/flow"
 	"github.com/lindb/lindb/internal/verifhook"
 	"github.com/lindb/lindb/kv/table"
+	"github.com/lindb/lindb/kv/version"
 	"github.com/lindb/lindb/models"
 	"github.com/lindb/lindb/pkg/bufioutil"
 	"github.com/lindb/lindb/pkg/compress"
@@ -248,8 +249,37 @@ func installGlobals() {
 			}
 			return bufioutil.NewBufioStreamWriter(fileName)
 		})
+		// manifest writer seam (kv/version): every record of every store's manifest is written into a
+		// bufio buffer and reaches the file in Sync; manifestHook is told right before and right after
+		version.VerifC01SetIO(func(fileName string) (bufioutil.BufioWriter, error) {
+			w, err := bufioutil.NewBufioEntryWriter(fileName)
+			if err != nil {
+				return nil, err
+			}
+			return &manifestWriter{BufioWriter: w, name: fileName}, nil
+		}, nil, nil)
 	})
 }
+
+// manifestWriter reports the manifest record syncs of the kv stores (one per committed edit log).
+type manifestWriter struct {
+	bufioutil.BufioWriter
+	name string
+}
+
+func (w *manifestWriter) Sync() error {
+	if f := manifestHook; f != nil {
+		f(w.name, false)
+	}
+	err := w.BufioWriter.Sync()
+	if f := manifestHook; f != nil && err == nil {
+		f(w.name, true)
+	}
+	return err
+}
+
+// manifestHook is called before (after = false) and after (after = true) every manifest record sync.
+var manifestHook func(fileName string, after bool)
 
 // tableHook is called before every table (sst) file creation of any kv store.
 var tableHook func(fileName string)
